@@ -21,7 +21,7 @@ RULE = ("alphabet: send of 1 byte / 12 bytes / two messages (1+6 bytes) / a null
         "newest pending send, timer (batch time limit tick, request timeout, retry timer), produce reply ok / error 7, "
         "connection accept, stop(); every enabled event in every state up to the depth bound (BFS, states = distinct "
         "fingerprints of the producer + monitor).  Configurations: batch_every_n {0,2,3} x batch_every_b {0,10} x "
-        "batch_every_t {0,5}, the unbatched producer, and two acks=0 configurations (a batch resolves inside the dispatch).  Oracle (reference model recomputed from scratch each step: "
+        "batch_every_t {0,5}, the unbatched producer, identical records sent repeatedly, version discovery enabled (the first batch waits for ApiVersions), and two acks=0 configurations (a batch resolves inside the dispatch).  Oracle (reference model recomputed from scratch each step: "
         "queue of accepted-undispatched-uncancelled sends, in-flight = client call or retry timer pending): a dispatch "
         "happens only when a threshold is met or the time limit ticks, takes the whole queue, and must happen in the "
         "step in which nothing is in flight and a threshold is met (including the step the previous batch resolves) "
@@ -57,6 +57,24 @@ def run(tier, seed, only=None):
         st = explore.bfs(SPEC, cfg, depth, seed=seed)
         name = "n%s-b%s-t%s" % (prod.get("batch_every_n", "u"), prod.get("batch_every_b", "u"),
                                 prod.get("batch_every_t", "u"))
+        rep.add_stats(name, st)
+        rep.notes.append("%s: BFS depth %d, %d states" % (name, st.max_len, st.nodes))
+    # identical records sent repeatedly (same topic, key and payload): cancelling one must not touch the others
+    for prod in ({"batch_every_n": 3, "batch_every_b": 0, "batch_every_t": 5},
+                 {"batch_every_n": 0, "batch_every_b": 0, "batch_every_t": 5}):
+        cfg = {"prop": PROPERTY, "cluster": CLUSTER, "discovery": False, "producer": prod, "same_content": True,
+               "menu": {}, "sizes": ["12"], "max_sends": 3, "max_cancels": 2, "timeout_ms": 2000}
+        st = explore.bfs(SPEC, cfg, 6 if tier == "quick" else 8, seed=seed)
+        name = "identical-records-n%s-t%s" % (prod["batch_every_n"], prod["batch_every_t"])
+        rep.add_stats(name, st)
+        rep.notes.append("%s: BFS depth %d, %d states" % (name, st.max_len, st.nodes))
+    # version discovery enabled: the first batch waits for the ApiVersions exchange inside the client; stop() (and
+    # cancel) can land during that wait
+    for prod in ({"unbatched": True}, {"batch_every_n": 2, "batch_every_b": 0, "batch_every_t": 5}):
+        cfg = {"prop": PROPERTY, "cluster": CLUSTER, "discovery": True, "producer": prod,
+               "menu": {"err": {"18": [35]}}, "sizes": ["12"], "max_sends": 3, "max_cancels": 1, "timeout_ms": 2000}
+        st = explore.bfs(SPEC, cfg, 6 if tier == "quick" else 8, seed=seed)
+        name = "discovery-n%s" % prod.get("batch_every_n", "u")
         rep.add_stats(name, st)
         rep.notes.append("%s: BFS depth %d, %d states" % (name, st.max_len, st.nodes))
     rep.coverage["rule"] = RULE
